@@ -7,7 +7,7 @@ import z3
 
 from .vals import And, Not
 
-Z3_TIMEOUT_MS = int(os.environ.get('GIVC_Z3_TIMEOUT_MS', '20000'))
+Z3_TIMEOUT_MS = int(os.environ.get('GIVC_Z3_TIMEOUT_MS', '6000'))
 CLI_TIMEOUT_S = int(os.environ.get('GIVC_CLI_TIMEOUT_S', '60'))
 
 
@@ -37,10 +37,10 @@ def _cli(cmd, smt2, timeout):
         os.unlink(path)
 
 
-def check(assumes, guard, cond, name='', info='', want_model=True, use_cli=True):
+def check(assumes, guard, cond, name='', info='', want_model=True, use_cli=True, api_timeout_ms=None):
     t0 = time.time()
     s = z3.Solver()
-    s.set('timeout', Z3_TIMEOUT_MS)
+    s.set('timeout', api_timeout_ms or Z3_TIMEOUT_MS)
     s.set('random_seed', 1)
     for a in assumes:
         s.add(a)
@@ -134,4 +134,4 @@ class Incremental(object):
         if r == z3.sat:
             return Result(ob.name, 'sat', 'z3-api', dt, model=model, info=ob.info)
         # fall back to a fresh (non-incremental) query with the CLI portfolio
-        return check(self.ex.assumes[:ob.n_assumes], ob.guard, ob.cond, ob.name, ob.info)
+        return check(self.ex.assumes[:ob.n_assumes], ob.guard, ob.cond, ob.name, ob.info, api_timeout_ms=1000)
